@@ -349,16 +349,16 @@ func returnRows(c *Ctx, fn *ssa.Function) []siteRow {
 			// incoming edge, like the separate `return a` / `return b` it stands for
 			blk := i.Block()
 			hasPhi := false
-			for _, rv := range ret.Results {
-				if phi, ok := refineAt(rv, blk).(*ssa.Phi); ok && phi.Block() == blk {
+			for k := range ret.Results {
+				if phi, ok := retValue(ret, k).(*ssa.Phi); ok && phi.Block() == blk {
 					hasPhi = true
 				}
 			}
 			if hasPhi && len(blk.Preds) > 1 {
 				for pk, p := range blk.Preds {
 					var vals []string
-					for k, rv := range ret.Results {
-						v := refineAt(rv, blk)
+					for k := range ret.Results {
+						v := retValue(ret, k)
 						if phi, ok := v.(*ssa.Phi); ok && phi.Block() == blk && pk < len(phi.Edges) {
 							vals = append(vals, c.ExprAt(phi.Edges[pk], p))
 						} else {
